@@ -73,9 +73,19 @@ def steady_state_transport_solver(
         2D or 3D field of kinematic flux at levels or footprint.
     """
 
-    # Check cache for footprint mode
+    # Check cache for footprint mode; the key uses the resolved halo and every
+    # remaining argument the result depends on (not the source values)
     if cache is not None and footprint:
-        cached = cache.get(z, profiles, domain, modes, meas_pt, halo, precision)
+        cache_halo = max(domain) if halo is None else halo
+        cache_extra = (
+            tuple(np.shape(srf_flx)),
+            tuple(np.atleast_1d(levels).tolist()),
+            bool(analytic),
+            float(srf_bg_conc),
+        )
+        cached = cache.get(
+            z, profiles, domain, modes, meas_pt, cache_halo, precision, cache_extra
+        )
         if cached is not None:
             return cached
 
@@ -313,7 +323,17 @@ def steady_state_transport_solver(
 
     # Store to cache for footprint mode
     if cache is not None and footprint:
-        cache.put(z, profiles, domain, modes, meas_pt, halo, precision, *result)
+        cache.put(
+            z,
+            profiles,
+            domain,
+            modes,
+            meas_pt,
+            cache_halo,
+            precision,
+            *result,
+            extra=cache_extra,
+        )
 
     return result
 
